@@ -119,6 +119,15 @@ def gen_chunked(rng, n, limits=False, big=False):
                             ctype=rng.choice([None, 'application/x-www-form-urlencoded', 'text/plain', 'application/json']), via='views')
         else:
             t = bl.run_real('chunked', inp, cl, buf, mb, rng=rng, short_p=rng.choice([0.3, 1.0]), kind=kind, expect=expect, ctype=rng.choice(bl.CTYPES))
+        if kind == 'legal' and mb >= 0:
+            # how much PAYLOAD the reader had taken from the stream when it answered (framing bytes not counted)
+            got = sum(e[1] for e in t['ev'])
+            pos = used = 0
+            for k in sizes:
+                ds = enc.index(b'\r\n', pos) + 2
+                used += max(0, min(got, ds + k) - ds)
+                pos = ds + k + 2
+            t['payload_consumed'] = used
         out.append(t)
     return out
 
@@ -223,6 +232,15 @@ def run(chk, prop):
         large = gen_cl_large(rng, n_large, limits=True)
         bigc = gen_chunked(rng, n_large // 2, limits=True, big=True)
         big_chunked_direct(chk, bigc, clauses)
+    if prop == 'C13':
+        # chunked framing: an over-limit body is refused after at most the limit plus one buffer of PAYLOAD has been taken from the
+        # stream, however large the chunk that crosses the limit is (the content-trace clause ReadBound covers Content-Length)
+        for t in small + bigc:
+            if t.get('payload_consumed', 0) > t['maxBody'] + t['buf'] + 2 and t['maxBody'] >= 0:
+                c = bl.case_of(t)
+                c['clauses'] = ['ReadBound']
+                chk.violation('C13: over-limit chunked body (limit %d, buffer %d): %d payload bytes had been read from the stream when the request was answered (%s)'
+                              % (t['maxBody'], t['buf'], t['payload_consumed'], t['phase']), c)
     for t in small:
         chk.count(1, (t['mode'], t['kind'], len(t['inp']), t['cl'], t['buf'], t['maxBody'], len(t['ev']), t['phase']))
     for t in small[:3]:
